@@ -397,7 +397,24 @@ func (in *Interp) load(fs *FState, instr ssa.Instruction, c *Cell) Value {
 	return in.loadCell(fs.st, c)
 }
 
+// smallArray: arrays of up to 8 elements are handled element-wise (like structs), so that e.g. a
+// [2]reason passed by value keeps the nil-ness of its elements.
+func smallArray(t types.Type) (*types.Array, bool) {
+	a, ok := t.Underlying().(*types.Array)
+	if !ok || a.Len() <= 0 || a.Len() > 8 {
+		return nil, false
+	}
+	return a, true
+}
+
 func (in *Interp) loadCell(st *State, c *Cell) Value {
+	if a, ok := smallArray(c.typ); ok {
+		r := StructV{fields: make([]Value, a.Len()), src: c.id}
+		for i := 0; i < int(a.Len()); i++ {
+			r.fields[i] = in.loadCell(st, in.kid(c, fmt.Sprintf("[%d]", i), a.Elem()))
+		}
+		return r
+	}
 	if s, ok := c.typ.Underlying().(*types.Struct); ok {
 		r := StructV{fields: make([]Value, s.NumFields()), src: c.id}
 		for i := 0; i < s.NumFields(); i++ {
@@ -446,6 +463,18 @@ func (in *Interp) store(fs *FState, instr ssa.Instruction, p PtrV, v Value) {
 }
 
 func (in *Interp) weakStore(st *State, c *Cell, v Value) {
+	if a, ok := smallArray(c.typ); ok {
+		sv, isS := v.(StructV)
+		for i := 0; i < int(a.Len()); i++ {
+			k := in.kid(c, fmt.Sprintf("[%d]", i), a.Elem())
+			if isS && i < len(sv.fields) && sv.fields[i] != nil {
+				in.weakStore(st, k, sv.fields[i])
+			} else {
+				in.weakStore(st, k, Top{})
+			}
+		}
+		return
+	}
 	if s, ok := c.typ.Underlying().(*types.Struct); ok {
 		sv, isS := v.(StructV)
 		for i := 0; i < s.NumFields(); i++ {
@@ -465,6 +494,26 @@ func (in *Interp) weakStore(st *State, c *Cell, v Value) {
 }
 
 func (in *Interp) storeCell(st *State, c *Cell, v Value) {
+	if a, ok := smallArray(c.typ); ok {
+		sv, isS := v.(StructV)
+		_, isZero := v.(zeroStruct)
+		for i := 0; i < int(a.Len()); i++ {
+			k := in.kid(c, fmt.Sprintf("[%d]", i), a.Elem())
+			switch {
+			case isS && i < len(sv.fields) && sv.fields[i] != nil:
+				in.storeCell(st, k, sv.fields[i])
+			case isZero:
+				if _, nested := a.Elem().Underlying().(*types.Struct); nested {
+					in.storeCell(st, k, zeroStruct{})
+				} else {
+					in.storeCell(st, k, zeroValue(a.Elem()))
+				}
+			default:
+				in.storeCell(st, k, in.unknown(a.Elem()))
+			}
+		}
+		return
+	}
 	if s, ok := c.typ.Underlying().(*types.Struct); ok {
 		sv, isS := v.(StructV)
 		_, isZero := v.(zeroStruct)
@@ -512,6 +561,9 @@ func (in *Interp) val(fs *FState, v ssa.Value) Value {
 				return NilV{true}
 			}
 			if _, ok := x.Type().Underlying().(*types.Struct); ok {
+				return zeroStruct{}
+			}
+			if _, ok := smallArray(x.Type()); ok {
 				return zeroStruct{}
 			}
 			return zeroValue(x.Type())
@@ -856,6 +908,16 @@ func (in *Interp) step(fs *FState, instr ssa.Instruction) []*FState {
 		default:
 			fs.env[x] = in.nonNil()
 		}
+	case *ssa.Index:
+		if sv, ok := in.val(fs, x.X).(StructV); ok {
+			if c, ok := in.val(fs, x.Index).(ConstV); ok {
+				if i, exact := asConstInt(c); exact && int(i) < len(sv.fields) && i >= 0 && sv.fields[i] != nil {
+					fs.env[x] = sv.fields[i]
+					break
+				}
+			}
+		}
+		fs.env[x] = in.unknown(x.Type())
 	case *ssa.Extract:
 		if t, ok := in.val(fs, x.Tuple).(TupleV); ok && x.Index < len(t.elems) {
 			fs.env[x] = t.elems[x.Index]
@@ -962,7 +1024,7 @@ func (in *Interp) step(fs *FState, instr ssa.Instruction) []*FState {
 		}
 	case *ssa.MakeSlice, *ssa.MakeMap, *ssa.MakeChan:
 		fs.env[instr.(ssa.Value)] = in.nonNil()
-	case *ssa.Lookup, *ssa.Index, *ssa.Next, *ssa.Select:
+	case *ssa.Lookup, *ssa.Next, *ssa.Select:
 		fs.env[instr.(ssa.Value)] = in.unknown(instr.(ssa.Value).Type())
 	case *ssa.Range, *ssa.SliceToArrayPointer:
 		fs.env[instr.(ssa.Value)] = in.top()
